@@ -92,6 +92,8 @@ def stats(chk, scen, tags, obs):
             hits += 1
     chk.count("kind:" + tags[0])
     chk.count("names:" + tags[1])
+    for tg in tags[2:]:
+        chk.count("stress:" + tg)
     chk.count("requests", len(qs))
     chk.count("storage-fetches", len(fetches))
     chk.count("replies:NOTFOUND", nf)
